@@ -15,7 +15,7 @@ var (
 	segs    = []string{"a", "b", "c", "{p}", "{q}", "*"}
 	hosts   = []string{"a.com", "b.com", "a.b", "api.a.com"}
 	methods = []string{"GET", "POST", "HEAD"}
-	values  = []string{"a", "b", "c", "x1", "me", "123", "{p}", "{z}", "*", ""}
+	values  = []string{"a", "b", "c", "x1", "me", "AbC", "{p}", "{z}", "*", ""}
 )
 
 func genPattern(r *prng.R) string {
@@ -431,9 +431,9 @@ func genNestedWildcardCase(r *prng.R, id string) proto.Case {
 	}
 	n := len(ops)
 	reqs := []string{
-		"req GET " + proto.Enc(deep),                    // ends AT the deeper wildcard (zero segments)
-		"req GET " + proto.Enc(deep+"/"+prng.Pick(r, values[:6])), // one below
-		"req GET " + proto.Enc(deep+"/builds/7/log"),    // several below
+		"req GET " + proto.Enc(deep),                                        // ends AT the deeper wildcard (zero segments)
+		"req GET " + proto.Enc(deep+"/"+prng.Pick(r, values[:6])),           // one below
+		"req GET " + proto.Enc(deep+"/builds/7/log"),                        // several below
 		"req GET " + proto.Enc(inst(sh.outer)+"/"+prng.Pick(r, values[:6])), // only the outer wildcard matches
 		"req POST " + proto.Enc(deep+"/z"),
 	}
@@ -444,6 +444,92 @@ func genNestedWildcardCase(r *prng.R, id string) proto.Case {
 	// the same shapes on the raw trie
 	ops = append(ops, "t.ins d "+proto.Enc(sh.outer)+" 1", "t.ins d "+proto.Enc(sh.inner)+" 2",
 		"t.look "+proto.Enc(deep+"/builds/7"), "t.look "+proto.Enc(deep))
+	return proto.Case{ID: id, Ops: ops}
+}
+
+// ---- L4: production path ----------------------------------------------------------------------
+
+// load -> requests -> RevertToDiagnosisFree -> requests -> RevertToLastLoaded -> requests, through the real
+// TxnPoliciesAccessor; a specific endpoint with diagnoses only / no plugin / a remedy sits inside a broader
+// pattern that carries a remedy.  After the diagnosis-free revert every DECLARED endpoint must still shadow.
+func genRevertCase(r *prng.R, id string) proto.Case {
+	type pair struct{ general, specific, other string }
+	p := prng.Pick(r, []pair{
+		{"api.com/v1/*", "api.com/v1/health", "api.com/v1/x"},
+		{"api.com/users/{id}", "api.com/users/me", "api.com/users/7"},
+		{"a.com/*", "a.com/x/{p}", "a.com/y"},
+		{"b.com/{p}/items", "b.com/a/items", "b.com/b/items"},
+	})
+	plug := func(prefix string, mode int) (string, string) {
+		switch mode {
+		case 0:
+			return "-", "-"
+		case 1: // diagnosis only
+			return "-", prefix + "d0:1"
+		case 2: // disabled remedy + diagnosis
+			return prefix + "r0:7:0", prefix + "d0:1"
+		case 3: // retry only (nothing answers early) + diagnosis
+			return prefix + "r0:8:1", prefix + "d0:1"
+		default:
+			return prefix + "r0:7:1", prefix + "d0:" + fmt.Sprint(r.Intn(2))
+		}
+	}
+	m := prng.Pick(r, methods)
+	gr, gd := plug("g", 4)
+	sr, sd := plug("s", r.Intn(5))
+	ops := []string{
+		fmt.Sprintf("ep %s %s r=%s d=%s", m, proto.Enc(p.general), gr, gd),
+		fmt.Sprintf("ep %s %s r=%s d=%s", m, proto.Enc(p.specific), sr, sd),
+	}
+	if r.Chance(40) {
+		ops = append(ops, fmt.Sprintf("glob r=%s d=%s", prng.Pick(r, []string{"-", "gg0:7:1", "gg0:8:1"}), prng.Pick(r, []string{"-", "ggd0:1"})))
+	}
+	var reqs []string
+	for _, u := range []string{instantiate(r, p.specific, false), p.other, instantiate(r, p.general, false)} {
+		reqs = append(reqs, "req "+m+" "+proto.Enc(u), "spoe "+m+" "+proto.Enc(u))
+	}
+	reqs = append(reqs, "req "+prng.Pick(r, methods)+" "+proto.Enc(instantiate(r, p.specific, false)))
+	order := prng.Pick(r, allPerms(2))
+	ops = append(ops, "load perm="+permStr(order))
+	ops = append(ops, reqs...)
+	ops = append(ops, "revert free")
+	ops = append(ops, reqs...)
+	if r.Bool() {
+		ops = append(ops, "revert last")
+		ops = append(ops, reqs...)
+	}
+	return proto.Case{ID: id, Ops: ops}
+}
+
+// Whole transactions entered through the SPOE handler (routing.Handler, policy mode) with MIXED-CASE URLs:
+// endpoints that differ only in letter case, literal segments with capitals, parameter values such as "AbC".
+func genSpoeCase(r *prng.R, id string) proto.Case {
+	base := prng.Pick(r, []string{"api.com/Users/{id}", "api.com/users/*", "a.com/Reports/{id}/rows", "API.com/x/{p}",
+		"a.com/v1/Items/*", "b.com/{p}/Items"})
+	pats := []string{base}
+	for n := r.Range(2, 3); len(pats) < n; {
+		if r.Bool() {
+			pats = append(pats, caseVariant(r, prng.Pick(r, pats)))
+		} else {
+			pats = append(pats, derivePattern(r, prng.Pick(r, pats)))
+		}
+	}
+	var ops []string
+	for i, p := range pats {
+		ops = append(ops, fmt.Sprintf("ep GET %s r=e%dr0:7:1 d=-", proto.Enc(p), i))
+	}
+	var reqs []string
+	for _, p := range pats {
+		u := strings.ReplaceAll(instantiate(r, p, false), "/me", "/AbC")
+		if r.Bool() {
+			u = instantiate(r, p, false)
+		}
+		for _, x := range []string{u, caseVariant(r, u), strings.ToLower(u), strings.ToUpper(u)} {
+			reqs = append(reqs, "req GET "+proto.Enc(x), "spoe GET "+proto.Enc(x))
+		}
+	}
+	ops = append(ops, "load perm="+permStr(prng.Pick(r, allPerms(len(pats)))))
+	ops = append(ops, reqs...)
 	return proto.Case{ID: id, Ops: ops}
 }
 
@@ -560,6 +646,10 @@ func gen(r *prng.R, f proto.Flags, emit func(proto.Case)) {
 			emit(genExemptCase(rr, fmt.Sprintf("e%d", k)))
 		case k%25 == 9:
 			emit(genNestedWildcardCase(rr, fmt.Sprintf("w%d", k)))
+		case k%25 == 10:
+			emit(genRevertCase(rr, fmt.Sprintf("v%d", k)))
+		case k%25 == 11:
+			emit(genSpoeCase(rr, fmt.Sprintf("s%d", k)))
 		case k%3 == 0:
 			emit(genTrieCase(rr, fmt.Sprintf("t%d", k)))
 		default:
